@@ -9,7 +9,7 @@ from ..prv import Pvt, PrvError
 
 ID = "C20"
 LEVEL = "exploration"
-RUNS = {"quick": 1000, "thorough": 30000}
+RUNS = {"quick": 3000, "thorough": 30000}
 RULE = ("seeded nOS-V / Nanos6 worlds with 1-8 physical CPUs emulated with -b: workers follow the runtimes' grammar (worker region, scheduler, "
         "task bodies, API/blocking regions around pauses, progress states Progressing/Resting/Absorbing) while threads pause, migrate and "
         "leave CPUs empty; at every event time the breakdown rows are compared with the reference per-CPU values (as a multiset, by label), "
